@@ -947,6 +947,45 @@ def tuple_length_probe(ctx):
         ctx.count("probe:tuple_length_change:%s:%s" % (kind, res))
 
 
+# ---------------------------------------------------------------------------
+# source tie (shared with C08, one translator): harness/translate/deltapasses.py regenerates Delta.__add__ / __radd__ (order of the
+# passes, deepcopy unless mutate, try/finally + reset), the pass wrappers, __rsub__ / _get_reverse_diff / _do_verify_changes from the
+# CURRENT deepdiff/delta.py (DDGen.DeltaGen); coq/srctie/DeltaGenEquiv.v proves them equal to Delta/DeltaModel.v for all arguments,
+# coq/srctie/DeltaGenEquivC01.v restates C01's round-trip theorems about the generated __add__
+# ---------------------------------------------------------------------------
+SOURCE_TIES = [{"name": "deltapasses", "translator": "deltapasses", "gen_module": "DeltaGen", "equiv": ["DeltaGenEquiv", "DeltaGenEquivC01"],
+                "needs": ["Delta.DeltaSrc", "Delta.DeltaShow", "Properties.C08", "Properties.C01"],
+                "sources": ["deepdiff/delta.py"],
+                "fragment": "class Delta: __add__ (order of the 14 passes, deepcopy unless mutate, try/finally, reset), __radd__, the pass wrappers "
+                            "_do_* (not the workers they call), and - shared with C08 - __rsub__, _get_reverse_diff, _do_verify_changes, _raise_or_log"}]
+TIE_STATE = {"decided": False}
+
+
+def on_source_tie_break(ctx, name, rec):
+    """the search for an input on which the regenerated and the hand-written model differ is C08's (harness/props/c08.py
+    tie_search: generated vs hand model inside Coq on pairs from this module's generators); a differing pair is judged by THIS
+    property's ordinary machinery: one_pair over the full configuration product (direct oracle) + correspondence"""
+    from harness.props import c08
+    res, differing = c08.tie_search(ctx, name, rec)
+    if not differing:
+        return res
+    judged, cases = [], []
+    f0, b0 = len(ctx.failures), len(ctx.breaks)
+    for (t1, t2, zip_, thr) in differing[:5]:
+        ctx.count("gen:source_tie_differing_pair")
+        one_pair(ctx, t1, t2, cases, full=True)
+        judged.append({"t1": repr(t1), "t2": repr(t2), "first_cfg(zip,thr)": [zip_, thr]})
+    both = [(e, x, t) for (e, x, t) in cases if x[-1] is not None]
+    plain = [(e, x[:-1], t) for (e, x, t) in cases if x[-1] is None]
+    ctx.coq_cases("c01tie", DC.HYP_HDR, both, shard=60, label="source_tie_differing_pairs")
+    ctx.coq_cases("c01tiep", DC.HDR, plain, shard=60, label="source_tie_differing_pairs_plain")
+    res["first_differing"] = judged
+    res["judged"] = {"new_oracle_failures": len(ctx.failures) - f0, "new_breaks": len(ctx.breaks) - b0}
+    if len(ctx.failures) > f0 or len(ctx.breaks) > b0:
+        TIE_STATE["decided"] = True
+    return res
+
+
 def run(ctx):
     import time
     marks = [("start", time.time())]
@@ -956,7 +995,11 @@ def run(ctx):
         ctx.note("wall_s:" + name, round(marks[-1][1] - marks[-2][1], 1))
     cases = []
     hyp_cases = []
-    pairs = gen_random(ctx, 2500 if ctx.thorough else 330)
+    # a source tie that is not intact (and whose search found no concrete differing input) escalates the pair stream to thorough size
+    big = ctx.thorough or (ctx.tie_broken("deltapasses") and not TIE_STATE["decided"])
+    if big and not ctx.thorough:
+        ctx.count("escalated_by_broken_source_tie")
+    pairs = gen_random(ctx, 2500 if big else 330)
     for t1, t2 in pairs:
         one_pair(ctx, t1, t2, cases, full=False, hyp_cases=hyp_cases)
     su = small_universe_pairs(ctx, ctx.thorough)
